@@ -392,3 +392,60 @@ Proof.
       rewrite E'' in Hl. cbn [length] in Hl. lia. }
   subst f. destruct post; reflexivity.
 Qed.
+
+(** ------------------------------------------------------------------ styled fields *)
+(** without a `.STYLE` part the styled line is the plain one *)
+Lemma styled_none pre post s w a tr :
+  styled_field_line pre post s w a tr None = field_line pre post s w a tr.
+Proof.
+  unfold styled_field_line, field_line. destruct w as [w|]; [|reflexivity].
+  destruct (padded s w a tr); reflexivity.
+Qed.
+
+(** a styled sized field is the field of [padded] - the object of every theorem above - between the
+    two escape texts of the style *)
+Theorem styled_is_field pre post s w a tr spre spost :
+  styled_field_line pre post s (Some w) a tr (Some (spre, spost)) =
+  match padded s w a tr with
+  | Ok f => Ok (pre ++ (spre ++ f ++ spost) ++ post)
+  | Panic k => Panic k
+  end.
+Proof. reflexivity. Qed.
+
+(** content that fits - the empty content included - in a styled field: exactly W columns when the
+    style's texts are zero columns wide (escape sequences), padding by the alignment, inside the
+    style *)
+Theorem styled_fits s w a tr spre spost pre post :
+  cols s <= w -> cols spre = 0 -> cols spost = 0 ->
+  exists l r,
+    styled_field_line pre post s (Some w) a tr (Some (spre, spost))
+      = Ok (pre ++ (spre ++ (spaces l ++ s ++ spaces r) ++ spost) ++ post)
+    /\ cols (spre ++ (spaces l ++ s ++ spaces r) ++ spost) = w
+    /\ l + r = w - cols s
+    /\ match a with
+       | ALeft => l = 0
+       | ARight => r = 0
+       | ACenter => l = (w - cols s) / 2 /\ (r = l \/ r = l + 1)
+       end.
+Proof.
+  intros Hs Hp Hq. destruct (fits s w a tr Hs) as [l [r [E [Hc [Hlr Ha]]]]].
+  exists l, r. rewrite styled_is_field, E. split; [reflexivity|].
+  split; [rewrite !cols_app in *; lia|]. split; assumption.
+Qed.
+
+Lemma spaces_add x y : spaces x ++ spaces y = spaces (x + y).
+Proof.
+  induction x as [|x IH] using N.peano_ind; [reflexivity|].
+  rewrite N.add_succ_l, !spaces_succ. cbn [app]. f_equal. exact IH.
+Qed.
+
+(** in particular an EMPTY styled field is W blanks inside the style *)
+Theorem styled_empty w a tr spre spost pre post :
+  styled_field_line pre post [] (Some w) a tr (Some (spre, spost))
+  = Ok (pre ++ (spre ++ spaces w ++ spost) ++ post).
+Proof.
+  assert (H0 : cols [] <= w) by (cbn [cols]; lia).
+  destruct (fits [] w a tr H0) as [l [r [E [_ [Hlr _]]]]].
+  rewrite styled_is_field, E. cbn [app cols] in *. rewrite spaces_add.
+  replace (l + r) with w by lia. reflexivity.
+Qed.
